@@ -224,11 +224,12 @@ def project_specs(draw, pf: Profile):
 
     # ---- global holidays ------------------------------------------------------------
     if pf.glob_vac and draw(st.integers(0, 3)) == 0:
-        s = _aligned_dt(draw, start, min(span, 10), res_min).replace(hour=0, minute=0)
-        if pf.single_date_leaves and draw(st.booleans()):
-            spec.vacations.append(Leave("vacation", s, None))
-        else:
-            spec.vacations.append(Leave("vacation", s, s + timedelta(days=draw(st.integers(1, 3)))))
+        for _ in range(draw(st.sampled_from([1, 1, 2, 3]))):  # several holidays, declared in any order
+            s = _aligned_dt(draw, start, min(span, 14), res_min).replace(hour=0, minute=0)
+            if pf.single_date_leaves and draw(st.booleans()):
+                spec.vacations.append(Leave("vacation", s, None))
+            else:
+                spec.vacations.append(Leave("vacation", s, s + timedelta(days=draw(st.integers(1, 3)))))
     if pf.year_end_holidays:
         # a shutdown that straddles New Year, if the horizon contains one
         for y in range(start.year, start.year + 2):
@@ -300,6 +301,14 @@ def project_specs(draw, pf: Profile):
         g.children = leafs[:k]
         if pf.limits and draw(st.booleans()):
             g.limits = _limits(draw, res_min)
+        if pf.calendars and draw(st.booleans()):
+            # the group declares the calendar; its members inherit it (they have none of their own)
+            g.hours = _hours(draw, res_min, pf.crossmid)
+            for c in g.children:
+                c.hours = None
+                c.shift = None
+                if not pf.zones:
+                    c.tz = None
         spec.resources = [g] + leafs[k:]
     else:
         spec.resources = leafs
@@ -442,6 +451,8 @@ def project_specs(draw, pf: Profile):
                         d.gap = (draw(st.integers(1, 72)), "h")
                     else:
                         d.gap = (draw(st.integers(1, 24)) * (res_min // 20 if res_min == 20 else 1), "h")
+                elif unit in ("m", "y"):
+                    d.gap = (1, unit)
                 else:
                     d.gap = (draw(st.integers(1, 3)), unit)
             if pf.onstart and forward_project and draw(st.integers(0, 5)) == 0:
